@@ -23,7 +23,7 @@ FLOORS = {'quick': {'job_flag_observations': 1500, 'given_up_jobs': 150, 'forced
 COUNT = {'quick': 400, 'thorough': 10000}
 BUDGET_S = {'quick': 55, 'thorough': 540}
 
-KNOBS = {'n_min': 2, 'n_max': 4,
+KNOBS = {'stagger': [0.0, 1.0, 4.0, 30.0, 60.0], 'n_min': 2, 'n_max': 4,
          'apps': {'n_apps': (1, 3), 'n_progs': (1, 4), 'seq_max': 3, 'startsecs': (0, 8), 'stopwaitsecs': (1, 8),
                   'per_instance_diff': 0.1, 'managed_p': 0.9, 'allow_wait_exit': True},
          'behaviours': ['normal'] * 4 + ['slow_stop', 'stubborn', 'immortal', 'immortal', 'crash_early',
